@@ -434,6 +434,16 @@ fn approx_sweeps(o: &mut Out, thorough: bool, seed: u64) {
     for x in [1.0f32, -1.0, f32::from_bits(1.0f32.to_bits() - 1), -f32::from_bits(1.0f32.to_bits() - 1), 0.0, -0.0, 0.5, -0.5] {
         inv_trig(o, x);
     }
+    // tiny arguments of either sign, log-spaced down to the subnormals (asin x = x, acos x = pi/2 there)
+    let n = if thorough { 400_000 } else { 20_000 };
+    for i in 0..=n {
+        let m = 10f64.powf(-45.0 + 42.0 * i as f64 / n as f64) as f32;
+        if m > 0.0 {
+            inv_trig(o, m);
+            inv_trig(o, -m);
+            o.count("asin/acos:|x| < 1e-3", 2);
+        }
+    }
     // atan2 on a polar grid including the axes and (0, 0)
     let (nr, na) = if thorough { (200, 20_000) } else { (40, 4_000) };
     for ir in 0..nr {
@@ -468,6 +478,14 @@ fn approx_sweeps(o: &mut Out, thorough: bool, seed: u64) {
     }
     for (x, y) in [(2.0f32, 2.0f32), (2.0, 0.5), (9.0, -0.5), (1.0, 3.0), (10.0, 0.0), (2.2, 2.2)] {
         check_approx(o, "powf", &[x.to_bits(), y.to_bits()], catch(|| fp::powf(x, y)), (x as f64).powf(y as f64));
+    }
+    // negative bases with integer exponents (the sign follows the parity of the exponent)
+    for _ in 0..n / 20 {
+        let x = -(10f64.powf(unit(&mut s) * 4.0 - 2.0) as f32);
+        // |y| <= 3 as for positive bases (the domain on which open finding F19's backstop was measured)
+        let y = ((unit(&mut s) * 7.0).floor() - 3.0) as f32;
+        check_approx(o, "powf", &[x.to_bits(), y.to_bits()], catch(|| fp::powf(x, y)), (x as f64).powf(y as f64));
+        o.count("powf:negative base, integer exponent", 1);
     }
     // a zero base (either sign) is in the domain: 0^0 = 1, 0^y = 0 for y > 0, infinite for y < 0
     for x in [0.0f32, -0.0] {
